@@ -24,6 +24,8 @@ type progGen struct {
 	arity   map[string]int // functions defined again with another number of parameters (default 2)
 	fvals   []string // variables holding a function value taken from one of funcs
 	captured map[string]bool // functions whose value was taken (they keep two parameters)
+	structC bool     // type P has been declared again with the field C
+	vfuncs  []string // variadic functions
 	sconsts []string // string / float constants
 	alias   string   // the package the import alias "al" is bound to now
 	pending []string // statements that must follow the one just returned
@@ -252,11 +254,40 @@ func (g *progGen) stmt() string {
 		return st
 	}
 	for {
-		k := g.r.Intn(50)
+		k := g.r.Intn(56)
 		if g.long && g.obs && g.r.Bool() {
 			k = 22
 		}
 		switch k {
+		case 50, 51:
+			// the struct type declared again with one more field, and a literal that sets it
+			if !g.structs || !g.obs || g.structC {
+				continue
+			}
+			g.structC = true
+			v := g.id("pc")
+			g.pending = append(g.pending, fmt.Sprintf("%s := &P{A: %d, B: \"c\", C: 2.5}; host.Obs(%q, %s.A, %s.C)", v, g.r.Intn(50), g.id("pf"), v, v))
+			return "type P struct { A int; B string; C float64 }"
+		case 52, 53:
+			// a function multiplying a byte by a package constant: the result keeps its dynamic type
+			if len(g.consts) == 0 || !g.obs {
+				continue
+			}
+			f := g.id("kb")
+			g.pending = append(g.pending, fmt.Sprintf("host.Obs(%q, %s(byte(%d)))", g.id("kr"), f, 1+g.r.Intn(5)))
+			return fmt.Sprintf("func %s(b byte) any { return b * %s }", f, core.Pick(g.r, g.consts))
+		case 54, 55:
+			// a variadic function that tells a nil slice from an empty one, called with and without arguments
+			if !g.obs {
+				continue
+			}
+			if len(g.vfuncs) > 0 && g.r.Chance(2, 3) {
+				f := core.Pick(g.r, g.vfuncs)
+				return fmt.Sprintf("host.Obs(%q, %s(), %s(%d), %s(1, 2))", g.id("vr"), f, f, g.r.Intn(9), f)
+			}
+			f := g.id("va")
+			g.vfuncs = append(g.vfuncs, f)
+			return fmt.Sprintf("func %s(xs ...int) int { if xs == nil { return 0 - 1 }; return len(xs) }", f)
 		case 46, 47:
 			// string and float constants, declared again with another value between two reads
 			if !g.obs {
